@@ -17,7 +17,7 @@ import (
 func init() {
 	mon.Register(&mon.Prop{
 		ID: "C06", Level: "exploration",
-		Rule:        "table clause: all 25 table ids x all 64 codons x {upper, lower, every mixed casing} plus start/stop lists, complete; string clause: per table, random A/C/G/T strings of length 1..3000 in random case, each split at every codon boundary and with 1-2 trailing bases; non-trivial = every (table,codon) pair and every string of >= 2 codons; distinct by hash of (table, input)",
+		Rule:        "table clause: all 25 table ids x all 64 codons x {upper, lower, every mixed casing} plus start/stop lists, complete; string clause: per table, random A/C/G/T strings of length 1..3000 in random case, gene-like strings (a start codon of the table, sense codons, a stop codon) and strings with tandem runs of one codon or base, each split at every codon boundary and with 1-2 trailing bases; non-trivial = every (table,codon) pair and every string of >= 2 codons; distinct by hash of (table, input)",
 		Assumptions: []string{"oracle: NCBI genetic codes transcribed as standard code + per-table differences + explicit initiation/termination lists (termination list = '*' marks of NCBI's sncbieaa line), independent of poly's 64-letter strings"},
 		Shards:      tierShards(16, 16), WatchdogSec: tierSecs(600, 3600),
 		Run: runC06,
@@ -126,6 +126,42 @@ func runC06(w *mon.W) {
 			if r.Intn(12) == 0 {
 				n = 3000 // the largest length of the scope, a whole number of codons
 				s = randCase(r, randString(r, "ACGT", n), []float64{0, 0.5, 1}[r.Intn(3)])
+			}
+			switch i % 8 {
+			case 5:
+				// a gene as it is annotated: one of the table's start codons (also the alternative ones), sense codons
+				// only, one of its stop codons; 2..1000 codons, now and then followed by one or two more bases
+				var sense []string
+				for _, c := range oracle.AllCodons() {
+					if g.AminoAcid(c) != "*" {
+						sense = append(sense, c)
+					}
+				}
+				var sb strings.Builder
+				sb.WriteString(g.Starts[r.Intn(len(g.Starts))])
+				for k := []int{r.Intn(40), 148 + r.Intn(6), r.Intn(999)}[r.Intn(3)]; k > 0; k-- {
+					sb.WriteString(sense[r.Intn(len(sense))])
+				}
+				if len(g.Stops) > 0 {
+					sb.WriteString(g.Stops[r.Intn(len(g.Stops))])
+				}
+				sb.WriteString([]string{"", "", "A", "TG"}[r.Intn(4)])
+				s = randCase(r, sb.String(), []float64{0, 0, 1, 0.5}[r.Intn(4)])
+				n = len(s)
+				w.Add("gene_like_strings", 1)
+			case 6:
+				// tandem runs: one codon (or one base) repeated 2..40 times between random stretches, ending anywhere
+				var sb strings.Builder
+				sb.WriteString(randString(r, "ACGT", 3*r.Intn(4)+r.Intn(3)*(r.Intn(2))))
+				for k := 1 + r.Intn(3); k > 0; k-- {
+					unit := randString(r, "ACGT", []int{3, 3, 1, 6}[r.Intn(4)])
+					sb.WriteString(strings.Repeat(unit, 2+r.Intn(39)))
+					sb.WriteString(unit[:r.Intn(len(unit))])
+					sb.WriteString(randString(r, "ACGT", r.Intn(7)))
+				}
+				s = randCase(r, sb.String(), []float64{0, 1, 0.5}[r.Intn(3)])
+				n = len(s)
+				w.Add("strings_with_tandem_runs", 1)
 			}
 			tbl := codon.GetCodonTable(g.ID)
 			w.Begin(sid, s)
